@@ -9,6 +9,7 @@ import (
 	"flag"
 	"fmt"
 	"go/ast"
+	"go/constant"
 	"go/token"
 	"go/types"
 	"os"
@@ -67,20 +68,39 @@ func main() {
 		}
 	}
 	sort.Strings(names)
-	pure := genPure(funcs)
-	facts := genFacts(funcs, names)
 	must(os.MkdirAll(*out, 0o755))
-	must(os.WriteFile(filepath.Join(*out, "Pure.lean"), []byte(pure), 0o644))
-	must(os.WriteFile(filepath.Join(*out, "Facts.lean"), []byte(facts), 0o644))
+	code := 0
+	part := func(name, file string, bit int, gen func() string) {
+		defer func() {
+			if r := recover(); r != nil {
+				if ge, ok := r.(genError); ok {
+					fmt.Fprintf(os.Stderr, "gen: %s: %s\n", name, string(ge))
+					code |= bit
+					return
+				}
+				panic(r)
+			}
+		}()
+		text := gen()
+		must(os.WriteFile(filepath.Join(*out, file), []byte(text), 0o644))
+	}
+	part("pure", "Pure.lean", 1, func() string { return genPure(funcs) })
+	part("facts", "Facts.lean", 2, func() string { return genFacts(funcs, names) })
+	if code != 0 {
+		os.Exit(2 + code)
+	}
 }
 
+type genError string
+
+// fail aborts the part of the generation that is running (recovered in main: the other part is still produced).
 func fail(f string, a ...any) {
-	fmt.Fprintf(os.Stderr, "gen: "+f+"\n", a...)
-	os.Exit(1)
+	panic(genError(fmt.Sprintf(f, a...)))
 }
 func must(err error) {
 	if err != nil {
-		fail("%v", err)
+		fmt.Fprintf(os.Stderr, "gen: %v\n", err)
+		os.Exit(1)
 	}
 }
 
@@ -97,11 +117,28 @@ func typeName(e ast.Expr) string {
 }
 
 // ---------------------------------------------------------------------------------------------------------------
-// Pure functions -> Lean (over Nat; `&^ m` becomes `andNot`, `x++` becomes `+ 1`; unsigned wrap-around is not modelled)
+// Pure functions -> Lean (over Nat; `&^ m` becomes `andNot`; unsigned wrap-around is not modelled).
+//
+// A small symbolic executor: an environment maps Go l-values (locals, `c.highestTime`, the pseudo-variable `e.next` behind
+// _getNext/_setNext) to Lean expressions; an `if` duplicates the rest of the block into both branches, `return` ends a path.
+// Constant expressions are evaluated by go/types; calls of package-local single-`return` helpers are inlined. This makes the
+// translation independent of how the function spells the same computation (named constants, temporaries, early returns,
+// swapped branches), leaving it to the tie lemmas to show that the computation is the same.
 
-type penv struct {
-	vars   map[string]string // Go expr text -> Lean variable
-	params []string
+type symEnv map[string]string
+
+func (e symEnv) clone() symEnv {
+	n := symEnv{}
+	for k, v := range e {
+		n[k] = v
+	}
+	return n
+}
+
+type symExec struct {
+	funcs  map[string]*fn
+	result string // l-value whose final value is the function's result when it returns nothing ("" = the returned expression)
+	depth  int
 }
 
 func exprText(e ast.Expr) string {
@@ -120,159 +157,175 @@ func exprText(e ast.Expr) string {
 	return fmt.Sprintf("<%T>", e)
 }
 
-func (p *penv) expr(e ast.Expr) string {
-	switch t := e.(type) {
-	case *ast.BasicLit:
-		if t.Kind == token.INT {
-			n, err := strconv.ParseUint(t.Value, 0, 64)
-			if err != nil {
-				fail("bad literal %s", t.Value)
-			}
+var conversions = map[string]bool{"uint64": true, "uint32": true, "int64": true, "int": true, "Timestamp": true, "Exp": true, "CAS": true}
+
+func (x *symExec) expr(env symEnv, e ast.Expr) string {
+	if tv, ok := info.Types[e]; ok && tv.Value != nil {
+		if n, exact := constantUint(tv.Value); exact {
 			return strconv.FormatUint(n, 10)
 		}
+	}
+	switch t := e.(type) {
 	case *ast.ParenExpr:
-		return "(" + p.expr(t.X) + ")"
+		return x.expr(env, t.X)
 	case *ast.Ident, *ast.SelectorExpr, *ast.StarExpr:
-		if v, ok := p.vars[exprText(e)]; ok {
+		if v, ok := env[exprText(e)]; ok {
 			return v
 		}
-		if id, ok := e.(*ast.Ident); ok {
-			if id.Name == "kMaxDeltaTtl" {
-				return "kMaxDeltaTtl"
-			}
+	case *ast.UnaryExpr:
+		if t.Op == token.NOT {
+			return "(¬ " + x.expr(env, t.X) + ")"
 		}
 	case *ast.CallExpr:
 		txt := exprText(t.Fun)
-		// conversions uint64(x), Timestamp(x), Exp(x), uint32(x)
-		if len(t.Args) == 1 && (txt == "uint64" || txt == "Timestamp" || txt == "Exp" || txt == "uint32" || txt == "CAS") {
-			return p.expr(t.Args[0])
+		if len(t.Args) == 1 && conversions[txt] {
+			return x.expr(env, t.Args[0])
 		}
-		if v, ok := p.vars[txt+"()"]; ok {
+		if v, ok := env[txt+"()"]; ok && len(t.Args) == 0 {
 			return v
 		}
+		// a package-local helper whose body is `return <expr>` (possibly after ifs): inline it
+		if id, ok := t.Fun.(*ast.Ident); ok {
+			if f := x.funcs[id.Name]; f != nil && f.decl.Recv == nil && x.depth < 4 {
+				inner := symEnv{}
+				for k, v := range env {
+					if strings.HasSuffix(k, "()") {
+						inner[k] = v // pseudo-variables for environment reads (nowAsExpiry() ...)
+					}
+				}
+				i := 0
+				for _, fld := range f.decl.Type.Params.List {
+					for _, nm := range fld.Names {
+						if i < len(t.Args) {
+							inner[nm.Name] = x.expr(env, t.Args[i])
+						}
+						i++
+					}
+				}
+				sub := &symExec{funcs: x.funcs, depth: x.depth + 1}
+				return "(" + sub.block(inner, f.decl.Body.List) + ")"
+			}
+		}
 	case *ast.BinaryExpr:
-		x, y := p.expr(t.X), p.expr(t.Y)
-		switch t.Op {
-		case token.AND_NOT:
-			return fmt.Sprintf("(andNot %s %s)", x, y)
-		case token.ADD:
-			return fmt.Sprintf("(%s + %s)", x, y)
-		case token.GEQ:
-			return fmt.Sprintf("(%s ≥ %s)", x, y)
-		case token.GTR:
-			return fmt.Sprintf("(%s > %s)", x, y)
-		case token.LEQ:
-			return fmt.Sprintf("(%s ≤ %s)", x, y)
-		case token.LSS:
-			return fmt.Sprintf("(%s < %s)", x, y)
-		case token.EQL:
-			return fmt.Sprintf("(%s = %s)", x, y)
-		case token.LAND:
-			return fmt.Sprintf("(%s ∧ %s)", x, y)
-		case token.LOR:
-			return fmt.Sprintf("(%s ∨ %s)", x, y)
+		a, b := x.expr(env, t.X), x.expr(env, t.Y)
+		ops := map[token.Token]string{token.ADD: "+", token.SUB: "-", token.GEQ: "≥", token.GTR: ">", token.LEQ: "≤", token.LSS: "<",
+			token.EQL: "=", token.NEQ: "≠", token.LAND: "∧", token.LOR: "∨", token.MUL: "*"}
+		if t.Op == token.AND_NOT {
+			return fmt.Sprintf("(andNot %s %s)", a, b)
+		}
+		if o, ok := ops[t.Op]; ok {
+			return fmt.Sprintf("(%s %s %s)", a, o, b)
 		}
 	}
 	fail("cannot translate expression %s at %s", exprText(e), fset.Position(e.Pos()))
 	return ""
 }
 
-// block translates a statement list that updates the single state variable `state` and finally yields `result`.
-// It returns a Lean expression for the final value of the tracked variable.
-func (p *penv) block(stmts []ast.Stmt, tracked string, cur string) string {
+func constantUint(v constantValue) (uint64, bool) {
+	return constantToUint64(v)
+}
+
+// assign updates the environment for `lhs = value` (also the pseudo-variable behind a setter call).
+func (x *symExec) assign(env symEnv, lhs string, value string) { env[lhs] = value }
+
+func ignorableCall(c *ast.CallExpr) bool {
+	txt := exprText(c.Fun)
+	return strings.HasSuffix(txt, ".Lock") || strings.HasSuffix(txt, ".Unlock") || txt == "debug" || txt == "verifPoint" || txt == "info" || txt == "trace"
+}
+
+// block returns the Lean expression of the function's result when `stmts` run from `env`.
+func (x *symExec) block(env symEnv, stmts []ast.Stmt) string {
 	for i, s := range stmts {
+		rest := stmts[i+1:]
 		switch t := s.(type) {
+		case *ast.DeferStmt, *ast.EmptyStmt:
+			continue
+		case *ast.DeclStmt:
+			continue
 		case *ast.ExprStmt:
-			// lock / unlock / debug calls: no effect on the value
 			if c, ok := t.X.(*ast.CallExpr); ok {
-				txt := exprText(c.Fun)
-				if strings.HasSuffix(txt, ".Lock") || strings.HasSuffix(txt, ".Unlock") || txt == "debug" || txt == "verifPoint" {
+				if ignorableCall(c) {
+					continue
+				}
+				if exprText(c.Fun) == "e._setNext" && len(c.Args) == 1 {
+					env = env.clone()
+					env["e._getNext()"] = x.expr(env, c.Args[0])
 					continue
 				}
 			}
 			fail("cannot translate statement at %s", fset.Position(s.Pos()))
-		case *ast.DeferStmt:
-			continue
+		case *ast.IncDecStmt:
+			env = env.clone()
+			cur := x.expr(env, t.X)
+			if t.Tok == token.INC {
+				env[exprText(t.X)] = "(" + cur + " + 1)"
+			} else {
+				env[exprText(t.X)] = "(" + cur + " - 1)"
+			}
 		case *ast.AssignStmt:
 			if len(t.Lhs) != 1 || len(t.Rhs) != 1 {
 				fail("multi-assign at %s", fset.Position(s.Pos()))
 			}
+			env = env.clone()
+			val := x.expr(env, t.Rhs[0])
 			lhs := exprText(t.Lhs[0])
-			if lhs == tracked {
-				p.vars[tracked] = cur
-				val := p.expr(t.Rhs[0])
-				if t.Tok == token.ADD_ASSIGN {
-					val = fmt.Sprintf("(%s + %s)", cur, val)
-				}
-				return fmt.Sprintf("let %s' := %s\n  %s", leanVar(tracked), val, (&penv{vars: copyVars(p.vars, tracked, leanVar(tracked)+"'")}).block(stmts[i+1:], tracked, leanVar(tracked)+"'"))
+			switch t.Tok {
+			case token.ADD_ASSIGN:
+				val = "(" + x.expr(env, t.Lhs[0]) + " + " + val + ")"
+			case token.SUB_ASSIGN:
+				val = "(" + x.expr(env, t.Lhs[0]) + " - " + val + ")"
 			}
-			// local definition
-			p.vars[tracked] = cur
-			v := leanVar(lhs)
-			val := p.expr(t.Rhs[0])
-			np := &penv{vars: copyVars(p.vars, lhs, v)}
-			return fmt.Sprintf("let %s := %s\n  %s", v, val, np.block(stmts[i+1:], tracked, cur))
-		case *ast.IncDecStmt:
-			if exprText(t.X) != tracked || t.Tok != token.INC {
-				fail("unsupported ++ at %s", fset.Position(s.Pos()))
-			}
-			nv := "(" + cur + " + 1)"
-			return (&penv{vars: copyVars(p.vars, tracked, nv)}).block(stmts[i+1:], tracked, nv)
+			env[lhs] = val
 		case *ast.IfStmt:
+			env = env.clone()
 			if t.Init != nil {
-				fail("if with init at %s", fset.Position(s.Pos()))
+				// `if v := f(); cond {`
+				as, ok := t.Init.(*ast.AssignStmt)
+				if !ok || len(as.Lhs) != 1 || len(as.Rhs) != 1 {
+					fail("unsupported if-init at %s", fset.Position(s.Pos()))
+				}
+				env[exprText(as.Lhs[0])] = x.expr(env, as.Rhs[0])
 			}
-			p.vars[tracked] = cur
-			cond := p.expr(t.Cond)
-			rest := stmts[i+1:]
+			cond := x.expr(env, t.Cond)
 			thenB := append(append([]ast.Stmt{}, t.Body.List...), rest...)
 			var elseB []ast.Stmt
-			if t.Else != nil {
-				eb, ok := t.Else.(*ast.BlockStmt)
-				if !ok {
-					fail("else-if at %s", fset.Position(s.Pos()))
-				}
-				elseB = append(append([]ast.Stmt{}, eb.List...), rest...)
-			} else {
+			switch eb := t.Else.(type) {
+			case nil:
 				elseB = rest
+			case *ast.BlockStmt:
+				elseB = append(append([]ast.Stmt{}, eb.List...), rest...)
+			case *ast.IfStmt:
+				elseB = append([]ast.Stmt{eb}, rest...)
 			}
-			return fmt.Sprintf("if %s then\n    %s\n  else\n    %s", cond,
-				(&penv{vars: copyVars(p.vars, "", "")}).block(thenB, tracked, cur),
-				(&penv{vars: copyVars(p.vars, "", "")}).block(elseB, tracked, cur))
+			return fmt.Sprintf("(if %s then %s else %s)", cond, x.block(env.clone(), thenB), x.block(env.clone(), elseB))
 		case *ast.ReturnStmt:
-			if len(t.Results) == 0 {
-				return cur
+			if len(t.Results) == 0 || x.result != "" {
+				return x.final(env, s.Pos())
 			}
-			p.vars[tracked] = cur
-			return p.expr(t.Results[0])
+			return x.expr(env, t.Results[0])
+		case *ast.BlockStmt:
+			return x.block(env, append(append([]ast.Stmt{}, t.List...), rest...))
 		default:
 			fail("unsupported statement %T at %s", s, fset.Position(s.Pos()))
 		}
 	}
-	return cur
+	if len(stmts) > 0 {
+		return x.final(env, stmts[len(stmts)-1].End())
+	}
+	return x.final(env, token.NoPos)
 }
 
-func copyVars(m map[string]string, k, v string) map[string]string {
-	n := map[string]string{}
-	for a, b := range m {
-		n[a] = b
+func (x *symExec) final(env symEnv, pos token.Pos) string {
+	if x.result == "" {
+		fail("a path ends without a returned value at %s", fset.Position(pos))
 	}
-	if k != "" {
-		n[k] = v
-	}
-	return n
-}
-
-func leanVar(goName string) string {
-	r := strings.NewReplacer(".", "_", "*", "", "(", "", ")", "")
-	return r.Replace(goName)
+	return env[x.result]
 }
 
 func genPure(funcs map[string]*fn) string {
 	var sb strings.Builder
 	sb.WriteString("/- GENERATED by /verif/tools/gen from /repo (hlc.go, utils.go, expiry_manager.go). Do not edit. -/\nnamespace Rosmar.Gen\n\n")
 	sb.WriteString("/-- Go's `x &^ m` on naturals. -/\ndef andNot (x m : Nat) : Nat := x - (x &&& m)\n\n")
-	sb.WriteString("def kMaxDeltaTtl : Nat := 60 * 60 * 24 * 30\n\n")
 	get := func(n string) *fn {
 		f := funcs[n]
 		if f == nil {
@@ -280,54 +333,26 @@ func genPure(funcs map[string]*fn) string {
 		}
 		return f
 	}
-	// HybridLogicalClock.Now: state c.highestTime, input c.clock.getTime()
 	now := get("HybridLogicalClock.Now")
-	p := &penv{vars: map[string]string{"c.clock.getTime()": "phys", "c.highestTime": "highest"}}
+	x := &symExec{funcs: funcs, result: "c.highestTime"}
 	sb.WriteString("/-- `HybridLogicalClock.Now`: the new `highestTime`, which is also the timestamp returned. -/\n")
-	sb.WriteString("def hlcNow (highest phys : Nat) : Nat :=\n  " + p.block(now.decl.Body.List, "c.highestTime", "highest") + "\n\n")
+	sb.WriteString("def hlcNow (highest phys : Nat) : Nat :=\n  " + x.block(symEnv{"c.clock.getTime()": "phys", "c.highestTime": "highest"}, now.decl.Body.List) + "\n\n")
 	upd := get("HybridLogicalClock.updateLatestTime")
-	p = &penv{vars: map[string]string{"lastTime": "lastTime", "c.highestTime": "highest"}}
+	x = &symExec{funcs: funcs, result: "c.highestTime"}
+	pname := upd.decl.Type.Params.List[0].Names[0].Name
 	sb.WriteString("/-- `HybridLogicalClock.updateLatestTime`: the new `highestTime`. -/\n")
-	sb.WriteString("def hlcUpdate (highest lastTime : Nat) : Nat :=\n  " + p.block(upd.decl.Body.List, "c.highestTime", "highest") + "\n\n")
+	sb.WriteString("def hlcUpdate (highest lastTime : Nat) : Nat :=\n  " + x.block(symEnv{pname: "lastTime", "c.highestTime": "highest"}, upd.decl.Body.List) + "\n\n")
 	abs := get("absoluteExpiry")
-	p = &penv{vars: map[string]string{"exp": "exp", "nowAsExpiry()": "now"}}
+	x = &symExec{funcs: funcs}
+	aname := abs.decl.Type.Params.List[0].Names[0].Name
 	sb.WriteString("/-- `absoluteExpiry` with the wall clock as a parameter. -/\n")
-	sb.WriteString("def absoluteExpiry (now exp : Nat) : Nat :=\n  " + p.block(abs.decl.Body.List, "exp", "exp") + "\n\n")
-	// _scheduleExpirationAtOrBefore: the decision whether to re-arm
+	sb.WriteString("def absoluteExpiry (now exp : Nat) : Nat :=\n  " + x.block(symEnv{aname: "exp", "nowAsExpiry()": "now"}, abs.decl.Body.List) + "\n\n")
 	sch := get("expiryManager._scheduleExpirationAtOrBefore")
-	sb.WriteString("/-- `_scheduleExpirationAtOrBefore`: the next-expiry value after the call (`_setNext(exp)` stores `exp`). -/\n")
-	sb.WriteString("def scheduleAtOrBefore (next exp : Nat) : Nat :=\n  " + translateSchedule(sch.decl) + "\n\n")
+	x = &symExec{funcs: funcs, result: "e._getNext()"}
+	sname := sch.decl.Type.Params.List[0].Names[0].Name
+	sb.WriteString("/-- `_scheduleExpirationAtOrBefore`: the next-expiry value after the call (`_setNext(x)` stores `x`). -/\n")
+	sb.WriteString("def scheduleAtOrBefore (next exp : Nat) : Nat :=\n  " + x.block(symEnv{sname: "exp", "e._getNext()": "next"}, sch.decl.Body.List) + "\n\n")
 	sb.WriteString("end Rosmar.Gen\n")
-	return sb.String()
-}
-
-// translateSchedule handles the shape: if exp == 0 {return}; currentNextExp := e._getNext(); if cond { e._setNext(exp) }
-func translateSchedule(fd *ast.FuncDecl) string {
-	p := &penv{vars: map[string]string{"exp": "exp", "e._getNext()": "next", "currentNextExp": "next"}}
-	var sb strings.Builder
-	for _, s := range fd.Body.List {
-		switch t := s.(type) {
-		case *ast.IfStmt:
-			cond := p.expr(t.Cond)
-			if len(t.Body.List) == 1 {
-				if _, ok := t.Body.List[0].(*ast.ReturnStmt); ok {
-					sb.WriteString("if " + cond + " then next else\n  ")
-					continue
-				}
-				if es, ok := t.Body.List[0].(*ast.ExprStmt); ok {
-					if c, ok := es.X.(*ast.CallExpr); ok && exprText(c.Fun) == "e._setNext" && len(c.Args) == 1 {
-						sb.WriteString("if " + cond + " then " + p.expr(c.Args[0]) + " else next")
-						continue
-					}
-				}
-			}
-			fail("unexpected shape in _scheduleExpirationAtOrBefore at %s", fset.Position(s.Pos()))
-		case *ast.AssignStmt:
-			continue
-		default:
-			fail("unexpected statement in _scheduleExpirationAtOrBefore at %s", fset.Position(s.Pos()))
-		}
-	}
 	return sb.String()
 }
 
@@ -693,4 +718,13 @@ func genFacts(funcs map[string]*fn, names []string) string {
 	}
 	sb.WriteString("]\n\nend Rosmar.Gen\n")
 	return sb.String()
+}
+
+type constantValue = constant.Value
+
+func constantToUint64(v constant.Value) (uint64, bool) {
+	if v.Kind() != constant.Int {
+		return 0, false
+	}
+	return constant.Uint64Val(v)
 }
